@@ -184,6 +184,12 @@ func runC05(rc *RunCtx) {
 	var dests []c05dest
 	for i := 0; i < nU+nT; i++ {
 		d := c05genDest(G, i)
+		if i > 0 && i < nU && G.Draw(3) == 0 {
+			// the same destination again on the same association (a refused one must stay refused)
+			d = dests[G.Draw(i)]
+			d.scripted = nil
+			simrt.Probe("udp_destination_repeated")
+		}
 		if d.scripted != nil {
 			host, _, _ := net.SplitHostPort(d.str)
 			w.Script(host, d.scripted...)
